@@ -63,10 +63,10 @@ Definition announced (s : state) (f : frame) : Prop :=
   nlen (fr_subs f) = h_byframe (hdr s) /\
   (forall sf, In sf (fr_subs f) -> lk_strs (groups s) nm_ANALOG nm_LABELS = Some (map ch_name sf)).
 
-(* the rates announce no analog sub-frame: POINT:RATE truncates to at least 1 and ANALOG:RATE / POINT:RATE truncates to 0 *)
+(* the rates announce no analog sub-frame: POINT:RATE is not zero and ANALOG:RATE / POINT:RATE truncates to 0 *)
 Definition rates_announce_none (gs : list group) : Prop :=
   forall rate, r_float0 12 gs nm_POINT nm_RATE = Ok rate ->
-    (forall rs, f_tosize rate = Ok rs -> rs <> 0) /\
+    f32_is_zero rate = false /\
     (forall ar q, r_float0 15 gs nm_ANALOG nm_RATE = Ok ar -> f_tosize (f_div ar rate) = Ok q -> q = 0).
 
 Lemma update_header_byframe_zero : forall s s' f0 ft,
@@ -84,8 +84,7 @@ Proof.
   unfold byframe_pure, first_frame in E3. rewrite Ef, Hs in E3. change (negb (nlen (@nil subframe) =? 0)) with false in E3. cbv iota in E3.
   destruct (group_named (groups s) nm_ANALOG) as [ga| |]; cbn [obind] in E3; try discriminate.
   destruct (negb (nlen (g_params ga) =? 0)); [|injection E3 as <-; lia].
-  destruct (f_tosize rate) as [rs| |] eqn:Ers; cbn [obind] in E3; try discriminate.
-  destruct (rs =? 0) eqn:Z0; [exfalso; apply (Q1 rs eq_refl); lia|].
+  rewrite Q1 in E3.
   destruct (r_float0 15 (groups s) nm_ANALOG nm_RATE) as [ar| |] eqn:Ear; cbn [obind] in E3; try discriminate.
   destruct (f_tosize (f_div ar rate)) as [q| |] eqn:Eq; cbn [obind] in E3; try discriminate.
   assert (q = 0) by (apply (Q2 ar q eq_refl Eq)). subst q.
